@@ -8,7 +8,7 @@ EXTENDS Lifecycle, Json, IOUtils, TLC
 
 Recs == ndJsonDeserialize(IOEnv.TRACE)
 
-VARIABLES l, disk, saved
+VARIABLES l, disk, saved, dbytes
 
 NoDisk == [ok |-> FALSE]
 
@@ -17,9 +17,9 @@ Out(i, rec, verdict, rt) ==
 
 NoDoc == [none |-> TRUE]
 
-Init == l = 1 /\ disk = NoDisk /\ saved = NoDoc
+Init == l = 1 /\ disk = NoDisk /\ saved = NoDoc /\ dbytes = <<>>
 
-DoReset == /\ Recs[l].ev = "Reset" /\ disk' = NoDisk /\ saved' = NoDoc /\ l' = l + 1
+DoReset == /\ Recs[l].ev = "Reset" /\ disk' = NoDisk /\ saved' = NoDoc /\ dbytes' = <<>> /\ l' = l + 1
 
 DoSave ==
     /\ Recs[l].ev = "Save"
@@ -29,21 +29,31 @@ DoSave ==
        IN /\ Out(l, rec, ver, [v |-> "ok-na"])
           /\ disk' = IF rec.res = "ok" THEN RdFile(rec.bytes) ELSE NoDisk
           /\ saved' = IF InDomain(doc) THEN doc ELSE NoDoc
+          /\ dbytes' = rec.bytes
     /\ l' = l + 1
 
 DoLoad ==
     /\ Recs[l].ev = "Load"
     /\ LET rec == Recs[l]
            loaded == DocOf(rec.doc)
-           ver == IF disk.ok THEN JudgeLoad(loaded, rec.res, disk) ELSE [v |-> "ok-skipped"]
+           ver == IF disk.ok THEN JudgeLoad(loaded, rec.res, disk, dbytes) ELSE [v |-> "ok-skipped"]
            rt  == IF "none" \in DOMAIN saved THEN [v |-> "ok-skipped"]
                   ELSE IF rec.res # "ok" THEN [v |-> "rt-load-failed", res |-> rec.res]
                   ELSE JudgeRoundTrip(saved, loaded)
        IN Out(l, rec, ver, rt)
-    /\ UNCHANGED <<disk, saved>>
+    /\ UNCHANGED <<disk, saved, dbytes>>
     /\ l' = l + 1
 
-Next == l <= Len(Recs) /\ (DoReset \/ DoSave \/ DoLoad)
-Spec == Init /\ [][Next]_<<l, disk, saved>>
+\* a file produced by somebody else (the specification's Producer): nothing to judge, it becomes the disk
+DoFile ==
+    /\ Recs[l].ev = "File"
+    /\ LET rd == RdFile(Recs[l].bytes) IN
+          /\ disk' = rd
+          /\ Out(l, Recs[l], IF rd.ok THEN [v |-> "ok"] ELSE [v |-> "producer-file-rejected-by-strict-reader", err |-> rd.err], [v |-> "ok-na"])
+    /\ saved' = NoDoc /\ dbytes' = Recs[l].bytes
+    /\ l' = l + 1
+
+Next == l <= Len(Recs) /\ (DoReset \/ DoSave \/ DoLoad \/ DoFile)
+Spec == Init /\ [][Next]_<<l, disk, saved, dbytes>>
 Consumed == TLCGet("stats").diameter = Len(Recs) + 1
 =============================================================================
